@@ -471,10 +471,36 @@ def handleU (j : Json) : R Json := do
   let ops ← (← getArr j "ops").toList.mapM opUOf
   pure (Json.mkObj [("outs", Json.arr (runOpsU s ops []).toArray)])
 
+/-! ### manager scripts: explicit and automatic iids mixed (application `get_iid_for_obj` overrides) -/
+
+def opXOf (j : Json) : R Iid.OpX := do
+  match (← getStr j "op") with
+  | "auto" => pure (.auto (← getNat j "obj"))
+  | "explicit" => pure (.explicit (← getNat j "obj") (← getNat j "iid"))
+  | "removeObj" => pure (.removeObj (← getNat j "obj"))
+  | "removeIid" => pure (.removeIid (← getNat j "iid"))
+  | op => throw s!"c17m: unknown op {op}"
+
+/-- `{"start": n, "objects": N, "maxIid": M, "ops": [...]}` → the manager's final counter and maps -/
+def handleManager (j : Json) : R Json := do
+  let ops ← (← getArr j "ops").toList.mapM opXOf
+  let n ← getNat j "objects"
+  let mx ← getNat j "maxIid"
+  match Iid.runX (Iid.startAt (← getNat j "start")) ops with
+  | none => pure (Json.mkObj [("err", "KeyError")])
+  | some m =>
+    pure (Json.mkObj [
+      ("counter", Json.num m.counter),
+      ("iids", Json.arr ((List.range n).filterMap fun o =>
+        (m.iids o).map fun i => Json.arr #[Json.num o, Json.num i]).toArray),
+      ("objs", Json.arr ((List.range (mx + 1)).filterMap fun i =>
+        (m.objs i).map fun o => Json.arr #[Json.num i, Json.num o]).toArray)])
+
 def handle (j : Json) : R Json := do
   let op ← getStr j "op"
   match op with
   | "c17" => handle17 j
+  | "c17m" => handleManager j
   | "c11" => handle11 j
   | "c11u" => handleU j
   | _ => throw s!"db: unknown op {op}"
